@@ -38,6 +38,7 @@ func init() {
 				o.MaxArr, o.Budget = 600, 80
 			}
 			avoid(ctx, &o)
+			gen.EmitEmptyData = true // zero-length data events are one more way of dividing the same data
 			base := gen.Document(t, o)
 			return &C23Case{Base: base, A: gen.Rechunk(t, base, true, true), B: gen.Rechunk(t, base, true, true)}
 		},
